@@ -347,4 +347,58 @@ def normFrom (v : Variant) : Nat → List Entry → List Entry
 
 def normalize (t : Track) : Track := ⟨t.variant, normFrom t.variant 0 t.entries⟩
 
+/-! ### vocabulary of the property statements (MvProps/C39.lean) -/
+
+/-- value ranges of the Rust field types -/
+def Entry.InRange (e : Entry) : Prop :=
+  e.simhash < 2 ^ 64 ∧ (∀ x ∈ e.topTerms, x < 2 ^ 32) ∧ e.termWeightSum < 2 ^ 16 ∧ e.flags < 2 ^ 16 ∧
+    e.lengthHint < 2 ^ 16
+
+/-- what the Rust types guarantee about a track: field widths, and the byte length fits a `u64` -/
+def Track.InRange (t : Track) : Prop :=
+  (∀ e ∈ t.entries, e.InRange) ∧ HDR + t.entries.length * t.variant.entrySize < 2 ^ 64
+
+/-- an entry already has the shape the variant's on-disk entry can hold -/
+def Entry.Stored (v : Variant) (e : Entry) : Prop :=
+  match v with
+  | .small => e.termFilter.length = FS ∧ e.topTerms.length = TS ∧ e.termWeightSum = 0 ∧ e.flags = FLAGS_ALL ∧
+      e.lengthHint = 0
+  | _ => e.termFilter.length = FM ∧ e.topTerms.length = TM
+
+def CanonFrom (v : Variant) : Nat → List Entry → Prop
+  | _, [] => True
+  | i, e :: es => (e.frameId = i ∧ e.Stored v) ∧ CanonFrom v (i + 1) es
+
+/-- frame ids are exactly 0..n-1 in insertion order and every entry is in stored shape -/
+def Track.Canonical (t : Track) : Prop := CanonFrom t.variant 0 t.entries
+
+/-- filter bytes / top terms an on-disk entry of the variant holds -/
+def Variant.storedFilter : Variant → Nat
+  | .small => FS | _ => FM
+def Variant.storedTops : Variant → Nat
+  | .small => TS | _ => TM
+
+/-- the header at `offset` is complete, has the magic and a valid entry size -/
+def HeaderOk (file : Bytes) (offset : Nat) : Prop :=
+  (slice file offset HDR).length = HDR ∧ slice (slice file offset HDR) 0 4 = MAGIC ∧
+    (Variant.ofEntrySize (leVal (slice (slice file offset HDR) 6 2))).isSome
+
+/-- sorted by weight descending, then hash ascending -/
+def SortedPairs (l : List (Nat × Nat)) : Prop := l.Pairwise (fun a b => pairLe a b = true)
+
+deriving instance DecidableEq for Except
+
+instance (e : Entry) : Decidable e.InRange := by unfold Entry.InRange; infer_instance
+instance (t : Track) : Decidable t.InRange := by unfold Track.InRange; infer_instance
+
+instance (v : Variant) (e : Entry) : Decidable (e.Stored v) := by unfold Entry.Stored; cases v <;> infer_instance
+def decCanonFrom (v : Variant) : (i : Nat) → (es : List Entry) → Decidable (CanonFrom v i es)
+  | _, [] => isTrue trivial
+  | i, e :: es => by
+    have := decCanonFrom v (i + 1) es
+    unfold CanonFrom
+    infer_instance
+instance (v : Variant) (i : Nat) (es : List Entry) : Decidable (CanonFrom v i es) := decCanonFrom v i es
+instance (t : Track) : Decidable t.Canonical := by unfold Track.Canonical; infer_instance
+
 end Mv.Sketch
